@@ -21,7 +21,7 @@ from vlib.gen import rhash
 
 PROPERTY = "C15"
 LEVEL = "exploration"
-TIMEOUT = {"quick": 900, "thorough": 5400}
+TIMEOUT = {"quick": 1500, "thorough": 7200}
 RULE = (
     "part 1: index expressions over <= 4 symbols and <= 3 arguments (each argument 0-3 indices, output 0-4 indices incl. new "
     "axes and contracted symbols), block counts per dimension in {1,2,3} with per-argument broadcasting (1 block where the "
